@@ -25,6 +25,8 @@ EX = "edgegraph.builder.explicit."
 MODS = [HELPERS, "edgegraph.builder.explicit", "edgegraph.traversal.breadthfirst", "edgegraph.traversal.depthfirst"]
 DC = struct.DONTCARE
 
+GRP = {"a": "A", "b": "M", "c": "M", "d": "M"}      # a second attribute whose values are NOT unique: several vertices match a search for it
+
 FAMILIES = {
     "plain": ("Vertex", {}),
     "falsy-vertices": ("SymFalsyVert", {}),
@@ -112,7 +114,7 @@ class G:
                         kw2.pop("uid")
                     else:
                         kw2["uid"] = h.I.getattr(pool["a"], "uid")
-                pool[n] = h.new(vcls, n, attributes=DictV([["name", n]]), **kw2)
+                pool[n] = h.new(vcls, n, attributes=DictV([["name", n], ["grp", GRP[n]]]), **kw2)
             for n, cls, x, y in self.EDGES:
                 pool[n] = h.new(cls, n, pool[x], pool[y])
             pool["U"] = h.new("Universe", "U", vertices=Seq([pool["a"], pool["b"], pool["c"]], "list"), attributes=DictV([["name", "U"]]))
@@ -391,8 +393,9 @@ class Obs:
         self.name, self.props, self.qual, self.do, self.want, self.cmp = name, props, qual, do, want, cmp
 
 
-def observers(h, C, more=(), more_unis=()):
-    """more / more_unis: further vertex / universe names to read (the scale families of rules/scale.py name bulk objects)"""
+def observers(h, C, more=(), more_unis=(), pairs=(), starts=()):
+    """more / more_unis / pairs / starts: further vertex / universe names to read, pairs for find_links and start vertices for the
+    traversals and searches (the scale families of rules/scale.py name bulk objects)"""
     I = h.I
     f = h.fn
     nb, fl = f(c04.FN), f(HELPERS + ".find_links")
@@ -421,12 +424,12 @@ def observers(h, C, more=(), more_unis=()):
             O.append(Obs(f"neighbors({v}, {d}, {uh})", ("C04", "C05", "C09"), c04.FN, lambda g, v=v, d=d, uh=uh: h.call(nb, g.obj(v), C[d], C[uh]),
                          lambda m, v=v, d=d, uh=uh: m_neighbors(m, v, d, uh)))
         O.append(Obs(f"neighbors({v})", ("C04", "C05", "C16"), c04.FN, lambda g, v=v: h.call(nb, g.obj(v)), lambda m, v=v: m_neighbors(m, v, dflt_d, dflt_uh)))
-    for a, b in (("a", "b"), ("b", "a"), ("c", "c"), ("c", "a"), ("a", "d"), ("d", "a"), ("b", "d")):
+    for a, b in (("a", "b"), ("b", "a"), ("c", "c"), ("c", "a"), ("a", "d"), ("d", "a"), ("b", "d")) + tuple(pairs):
         for ds in (True, False):
             O.append(Obs(f"find_links({a}, {b}, direction_sensitive={ds})", ("C09",), HELPERS + ".find_links",
                          lambda g, a=a, b=b, ds=ds: h.call(fl, g.obj(a), g.obj(b), ds, C["NEIGHBOR"]), lambda m, a=a, b=b, ds=ds: m_find_links(m, a, b, ds, "NEIGHBOR")))
     for tname, (mod, lst, gen, srch) in trav.TRAVS.items():
-        for uni, start, d in ((None, "a", "FORWARD"), ("U", "a", "FORWARD"), (None, "c", "ANY"), ("U", "b", "BACKWARD")):
+        for uni, start, d in ((None, "a", "FORWARD"), ("U", "a", "FORWARD"), (None, "c", "ANY"), ("U", "b", "BACKWARD")) + tuple((u_, s_, "FORWARD") for s_ in starts for u_ in (None, "U")):
             def want(m, tname=tname, uni=uni, start=start, d=d):
                 nbm = {}
                 for v in m.vlinks:
@@ -459,8 +462,11 @@ def observers(h, C, more=(), more_unis=()):
             from sa.harness import Outcome
             return Outcome("return", _Plain([osig(h.call(fn, None, g.obj("a"), direction_sensitive=C["FORWARD"], unknown_handling=C["ERROR"])) for _ in (0, 1)]))
         O.append(Obs(f"{lst}(None, a, FORWARD, ERROR) twice", ("C05", "C06", "C07", "C13"), f"{mod}.{gen}", do_err, want_err))
-        for uni, start, val in ((None, "a", "d"), ("U", "a", "c"), ("U", "a", "d"), (None, "b", "b")):
-            def wants(m, tname=tname, uni=uni, start=start, val=val):
+        for uni, start, val in (((None, "a", "d"), ("U", "a", "c"), ("U", "a", "d"), (None, "b", "b"), (None, "a", ("grp", "M")), ("U", "c", ("grp", "M")))
+                                + tuple((u_, s_, v_) for s_ in starts for u_, v_ in ((None, "d"), ("U", "c"), ("U", "d"), (None, ("grp", "M")), ("U", ("grp", "M"))))):
+            attr, val = val if isinstance(val, tuple) else ("name", val)
+
+            def wants(m, tname=tname, uni=uni, start=start, val=val, attr=attr):
                 nbm = {}
                 for v in m.vlinks:
                     r = m_neighbors(m, v, dflt_d, dflt_uh)
@@ -471,9 +477,11 @@ def observers(h, C, more=(), more_unis=()):
                 if not member(start):
                     return DC
                 order = trav.REF[tname](nbm, start, member)
-                return val if val in order else None
-            O.append(Obs(f"{srch}({uni}, {start}, 'name', {val!r})", ("C05", "C08"), f"{mod}.{srch}",
-                         lambda g, fn=f(f"{mod}.{srch}"), uni=uni, start=start, val=val: h.call(fn, g.obj(uni), g.obj(start), "name", val), wants))
+                if attr == "name":
+                    return val if val in order else None
+                return next((v_ for v_ in order if GRP.get(v_, "B") == val), None)      # the first listed vertex of that group
+            O.append(Obs(f"{srch}({uni}, {start}, {attr!r}, {val!r})", ("C05", "C08"), f"{mod}.{srch}",
+                         lambda g, fn=f(f"{mod}.{srch}"), uni=uni, start=start, val=val, attr=attr: h.call(fn, g.obj(uni), g.obj(start), attr, val), wants))
     return O
 
 
